@@ -18,13 +18,13 @@ func init() {
 		ID: "ORD-2",
 		Doc: "Layout, per component: IgnoreSelfLoops(g) dominates every Process invoke; the restore call (callee = result of that call) and UnreverseEdges(g) lie outside the pipeline loop, after it, on the same g, and both dominate the construction of every output node and edge; " +
 			"g is an element of the result of connected.Components; the pipeline slice holds options.p1..p5 in this order and the static Phase() of element i is i+1",
-		Floor: 8,
+		Floor: 7,
 		Run:   runOrd2,
 	})
 	register(&Rule{
-		ID: "ORD-3",
-		Doc: "size options: in Layout the loop calling Params.NodeFixedSizeFunc precedes the loop calling Params.NodeSizeFunc and both precede connected.Components; in every closure stored into Params.NodeSizeFunc the stores into Node.W/H/Size are control-dependent on the comma-ok result of a map lookup (unlisted nodes keep the fixed size)",
-		Floor: 3,
+		ID:    "ORD-3",
+		Doc:   "size options: in Layout the loop calling Params.NodeFixedSizeFunc precedes the loop calling Params.NodeSizeFunc and both precede connected.Components; in every closure stored into Params.NodeSizeFunc the stores into Node.W/H/Size are control-dependent on the comma-ok result of a map lookup (unlisted nodes keep the fixed size)",
+		Floor: 2,
 		Ctl:   []string{"ROOT__ord3.go.txt"},
 		Run:   runOrd3,
 	})
@@ -40,28 +40,28 @@ func init() {
 		ID: "ORD-5",
 		Doc: "reversal only on graphs established cyclic: every call of Edge.Reverse in package phase1 lies in a function that is reached from Alg.Process only through call sites dominated by the cyclic edge of the acyclicity test (the bool callee whose other edge returns early), " +
 			"or collects its candidates under an antiparallel witness: a lookup M[{q,p}] in a map whose only insertions are M[{p,q}] = true with p,q the endpoints of the visited edge",
-		Floor: 3,
+		Floor: 4,
 		Ctl:   []string{"internal__phase1__ord5.go.txt"},
 		Run:   runOrd5,
 	})
 	register(&Rule{
-		ID: "EFF-1",
-		Doc: "Reverse-primitive contract: (*Edge).Reverse removes e from Out of its old From and from In of its old To, adds e to In of its old From and to Out of its old To, stores From := old To, To := old From (both read before either store) and IsReversed := !IsReversed, and has no other effect",
-		Floor: 7,
+		ID:    "EFF-1",
+		Doc:   "Reverse-primitive contract: (*Edge).Reverse removes e from Out of its old From and from In of its old To, adds e to In of its old From and to Out of its old To, stores From := old To, To := old From (both read before either store) and IsReversed := !IsReversed, and has no other effect",
+		Floor: 8,
 		Run:   runEff1,
 	})
 	register(&Rule{
 		ID: "EFF-2",
 		Doc: "inverse pairs: IgnoreSelfLoops removes each collected edge from From.Out, To.In and g.Edges, and the closure it returns adds the same collected edges to the same three lists; UnreverseEdges calls Reverse exactly under e.IsReversed; " +
 			"reduceForward's merge loop removes the fragment from g.Edges and from the target's In, adds the head edge there and re-targets it, mirroring breakEdge's additions",
-		Floor: 10,
+		Floor: 18,
 		Run:   runEff2,
 	})
 	register(&Rule{
 		ID: "EFF-3",
 		Doc: "sibling agreement: every positioner (static callee of phase4.Alg.Process taking (*DGraph, Params)) writes Node.X and makes Layer.H a max-reduction of the layer's node heights (store of max(load Layer.H, load Node.H)); Alg.Process calls the Y assignment after every positioner; " +
 			"every router (callee of phase5.Alg.Process taking the routable-edge slice) writes Edge.Points; the merge step runs before every router",
-		Floor: 12,
+		Floor: 23,
 		Run:   runEff3,
 	})
 }
